@@ -289,7 +289,14 @@ def run(ctx):
                 except Exception:  # noqa
                     pass
                 ctx.violation(mech, f"{cls}: re-serialisation differs - {d}", case)
-        if order != "threads" and rp.get("eq") != rf.get("eq") and "err" not in (rp.get("eq") or {}) and "err" not in (rf.get("eq") or {}):
+        ep, ef = dict(rp.get("eq") or {}), dict(rf.get("eq") or {})
+        if rp.get("eq_prev_case") != rf.get("eq_prev_case"):
+            # the two backends do not have the same previous object of this class (one of them rejected a case in
+            # between - an acceptance difference judged where it occurs): only the self-comparison is comparable
+            ep = {k: v for k, v in ep.items() if k == "same_wire_twice"}
+            ef = {k: v for k, v in ef.items() if k == "same_wire_twice"}
+            ctx.count("equality_previous_not_comparable")
+        if order != "threads" and ep != ef and "err" not in ep and "err" not in ef:
             mech = "equality_differs"
             try:
                 mf = modelgen.discover_models()[c["cls"]].model_fields
